@@ -72,12 +72,14 @@ const (
 	c06FpOffTurn   = "offturn-stop-overlaps-receive:" // + path
 	c06FpPreStart  = "prestart-overlaps-receive:"     // + spawn|restart
 	c06FpRearm     = "restart-delivers-backlog-before-prestart"
+	c06FpUnserial  = "restart-unserialized:" // + what overlapped
+	c06FpSkipped   = "restart-skipped-shutdown:"
 	c06Cap         = 20 * time.Second
 	c06PkgPrefix   = "github.com/tochemey/goakt/v4/actor."
 	c06MaxLogLines = 400
 )
 
-var c06ThinkDur = []time.Duration{0, -1 /* yield */, 50 * time.Microsecond, 300 * time.Microsecond, time.Millisecond, 3 * time.Millisecond}
+var c06ThinkDur = []time.Duration{0, -1 /* yield */, 50 * time.Microsecond, 300 * time.Microsecond, time.Millisecond, 3 * time.Millisecond, 15 * time.Millisecond}
 
 type c06ActorSpec struct {
 	Parent    int  `json:"parent"`      // -1: spawned from the system; else index of an earlier actor
@@ -213,6 +215,16 @@ func c06StopPath() string {
 	return "unknown"
 }
 
+// c06Queued: 1 when the user mailbox holds at least one message, else 0. Deliberately
+// not Len(): walking the list is only safe for the consumer, and after the listed
+// two-workers-after-Restart defect the list can even be cyclic.
+func c06Queued(p *PID) int64 {
+	if p.mailbox.IsEmpty() {
+		return 0
+	}
+	return 1
+}
+
 func c06OnTurnPath(p string) bool { return p == "poison-pill" || p == "ctx-shutdown" }
 
 // ---- instrumented actor ----------------------------------------------------------
@@ -259,7 +271,7 @@ func (a *c06Actor) PostStop(*Context) error {
 	g := c06Gid()
 	q := int64(-1)
 	if p := a.pid.Load(); p != nil {
-		q = p.mailbox.Len()
+		q = c06Queued(p)
 	}
 	a.h.add(c06Ev{G: g, A: a.idx, K: c06KPostEnter, Path: c06StopPath(), Q: q})
 	c06Think(a.spec.PostThink)
@@ -329,7 +341,7 @@ func c06Gen(t *rapid.T) c06Case {
 			if rapid.IntRange(0, 4).Draw(t, "stray") == 0 {
 				m.To = rapid.IntRange(0, n-1).Draw(t, "to")
 			}
-			m.Think = rapid.SampledFrom([]int{0, 0, 1, 1, 2, 2, 3, 3, 4, 5}).Draw(t, "think")
+			m.Think = rapid.SampledFrom([]int{0, 0, 0, 1, 1, 1, 2, 2, 2, 3, 3, 3, 4, 4, 5, 6}).Draw(t, "think")
 			list = append(list, m)
 		}
 		c.Senders = append(c.Senders, list)
@@ -402,9 +414,25 @@ func c06Gen(t *rapid.T) c06Case {
 // ---- systems under test ----------------------------------------------------------------
 
 var (
-	c06Sys []ActorSystem
-	c06Seq atomic.Int64
+	c06Sys    []ActorSystem
+	c06Seq    atomic.Int64
+	c06SysGen atomic.Int64
 )
+
+func c06NewSystem(i int) (ActorSystem, error) {
+	opts := []Option{WithLogger(log.DiscardLogger)}
+	if b := c06Budgets[i]; b > 0 {
+		opts = append(opts, WithThroughputBudget(b))
+	}
+	sys, err := NewActorSystem(fmt.Sprintf("vfC06x%dg%d", i, c06SysGen.Add(1)), opts...)
+	if err != nil {
+		return nil, err
+	}
+	if err := sys.Start(context.Background()); err != nil {
+		return nil, err
+	}
+	return sys, nil
+}
 
 func c06Start(t *testing.T) {
 	c06RearmHook = func(pid *PID) {
@@ -413,22 +441,39 @@ func c06Start(t *testing.T) {
 		}
 	}
 	t.Cleanup(func() { c06RearmHook = nil })
-	for i, b := range c06Budgets {
-		opts := []Option{WithLogger(log.DiscardLogger)}
-		if b > 0 {
-			opts = append(opts, WithThroughputBudget(b))
-		}
-		sys, err := NewActorSystem(fmt.Sprintf("vfC06x%d", i), opts...)
+	c06Sys = make([]ActorSystem, len(c06Budgets))
+	for i := range c06Budgets {
+		sys, err := c06NewSystem(i)
 		if err != nil {
-			t.Fatalf("NewActorSystem: %v", err)
+			t.Fatalf("actor system: %v", err)
 		}
-		if err := sys.Start(context.Background()); err != nil {
-			t.Fatalf("Start: %v", err)
+		c06Sys[i] = sys
+	}
+	t.Cleanup(func() {
+		for _, sys := range c06Sys {
+			c06StopSystem(sys)
 		}
-		t.Cleanup(func() { _ = sys.Stop(context.Background()) })
-		c06Sys = append(c06Sys, sys)
+	})
+}
+
+// c06StopSystem stops a system without trusting Stop to return: the passivation
+// manager can livelock during shutdown (an expired entry whose tryPassivation keeps
+// returning false because the system is stopping is popped and re-pushed forever), in
+// which case ActorSystem.Stop never returns. Not this property: bounded wait.
+func c06StopSystem(sys ActorSystem) {
+	done := make(chan struct{})
+	go func() { _ = sys.Stop(context.Background()); close(done) }()
+	select {
+	case <-done:
+	case <-time.After(10 * time.Second):
 	}
 }
+
+// c06Alive: the system is up. A system can stop itself: a panic in one of its own
+// system actors (seen: GoAktDeathWatch dereferencing a tree node emptied by a
+// concurrent deleteNode) makes the system guardian shut everything down. That is not
+// part of this property; the harness replaces the system and does not judge the case.
+func c06Alive(sys ActorSystem) bool { return sys.Running() && !sys.isStopping() }
 
 func c06WaitUntil(cond func() bool, limit time.Duration) bool {
 	deadline := time.Now().Add(limit)
@@ -450,6 +495,15 @@ func c06WaitUntil(cond func() bool, limit time.Duration) bool {
 func c06Exec(x *vfkit.X, c c06Case) {
 	ctx := context.Background()
 	sys := c06Sys[c.Sys]
+	if !c06Alive(sys) {
+		x.Class("system_rebuilt_after_it_stopped_itself")
+		c06StopSystem(sys)
+		fresh, err := c06NewSystem(c.Sys)
+		if err != nil {
+			panic(fmt.Sprintf("cannot rebuild the actor system: %v", err))
+		}
+		sys, c06Sys[c.Sys] = fresh, fresh
+	}
 	h := &c06Hist{}
 	env := &c06Env{pids: make([]*PID, len(c.Actors))}
 	actors := make([]*c06Actor, len(c.Actors))
@@ -489,7 +543,11 @@ func c06Exec(x *vfkit.X, c c06Case) {
 		a.pid.Store(pid)
 		env.pids[i] = pid
 	}
+	leaked := false
 	defer func() {
+		if leaked {
+			return // a stop call is stuck: do not queue behind it
+		}
 		for _, p := range env.pids {
 			if p != nil {
 				_ = p.Shutdown(ctx)
@@ -529,10 +587,16 @@ func c06Exec(x *vfkit.X, c c06Case) {
 		wg.Add(1)
 		go func() {
 			defer wg.Done()
+			defer func() {
+				if r := recover(); r != nil {
+					x.Class("stop_call_panicked_" + c06StopName[st.Kind])
+					x.Logf("stop call %s panicked: %v", c06StopName[st.Kind], r)
+				}
+			}()
 			g := c06Gid()
 			a := actors[st.Target]
 			c06WaitUntil(func() bool { return a.entered.Load() >= int64(st.After) || sendersLeft.Load() == 0 }, c06Cap)
-			h.add(c06Ev{G: g, A: st.Target, K: c06KStopIssue, Msg: si, Path: c06StopName[st.Kind], Q: p.mailbox.Len()})
+			h.add(c06Ev{G: g, A: st.Target, K: c06KStopIssue, Msg: si, Path: c06StopName[st.Kind], Q: c06Queued(p)})
 			switch st.Kind {
 			case c06StopPoison:
 				_ = Tell(ctx, p, &PoisonPill{})
@@ -556,12 +620,16 @@ func c06Exec(x *vfkit.X, c c06Case) {
 	case <-done:
 	case <-time.After(c06Cap):
 		x.Class("inconclusive_driver_stalled")
+		leaked = true
 		return
 	}
 
 	// quiesce: every actor's turn has ended (a stopped actor may still be draining
 	// its backlog), in-flight passivation attempts are over
 	idle := func() bool {
+		if !c06Alive(sys) {
+			return true
+		}
 		for _, p := range env.pids {
 			if p != nil && (p.schedState.Load() != dispatchIdle || p.isStateSet(passivatingState)) {
 				return false
@@ -582,20 +650,36 @@ func c06Exec(x *vfkit.X, c c06Case) {
 		return true
 	}, 200*time.Millisecond)
 	// stop what is still alive (roots first: a stopping parent takes its children down)
-	for i, p := range env.pids {
-		if p != nil && c.Actors[i].Parent < 0 {
-			_ = p.Shutdown(ctx)
+	cleaned := make(chan struct{})
+	go func() {
+		defer close(cleaned)
+		for i, p := range env.pids {
+			if p != nil && c.Actors[i].Parent < 0 {
+				_ = p.Shutdown(ctx)
+			}
 		}
-	}
-	for _, p := range env.pids {
-		if p != nil {
-			_ = p.Shutdown(ctx)
+		for _, p := range env.pids {
+			if p != nil {
+				_ = p.Shutdown(ctx)
+			}
 		}
+	}()
+	select {
+	case <-cleaned:
+	case <-time.After(c06Cap):
+		// e.g. a stop that never returns after a listed restart defect corrupted the actor
+		x.Class("inconclusive_cleanup_stalled")
+		leaked = true
+		return
 	}
 	if !c06WaitUntil(idle, c06Cap) {
 		x.Class("inconclusive_not_quiescent")
 	}
 	vfsched.SetNoise(0, 0, 0)
+	if !c06Alive(sys) {
+		x.Class("inconclusive_system_stopped_itself")
+		return
+	}
 
 	c06Judge(x, c, h.snapshot())
 }
@@ -688,6 +772,33 @@ func c06Judge(x *vfkit.X, c c06Case, evs []c06Ev) {
 		if len(pre) == 0 {
 			fail("hook-without-prestart", "hooks ran although PreStart never did")
 		}
+		tainted := map[int]bool{}
+		// concurrentCalls: the harness call that ran this PreStart overlapped, in time,
+		// another stop/restart call of the harness on the same actor
+		concurrentCalls := func(p *c06Iv) bool {
+			for _, own := range calls {
+				if own.g != p.g || !(own.issue < p.enter && p.enter < own.ret) {
+					continue
+				}
+				for _, other := range calls {
+					if other != own && other.issue < own.ret && own.issue < other.ret {
+						return true
+					}
+				}
+			}
+			return false
+		}
+		// twoWorkers: two Receives of this actor overlap on different goroutines inside (lo, hi)
+		twoWorkers := func(lo, hi int64) bool {
+			for i, r1 := range recv {
+				for _, r2 := range recv[i+1:] {
+					if r1.g != r2.g && r1.enter > lo && r2.enter > lo && r1.enter < hi && r2.enter < hi && r1.enter < r2.exit && r2.enter < r1.exit {
+						return true
+					}
+				}
+			}
+			return false
+		}
 		// (a) PreStart completes before any Receive of its incarnation; no hook or handler
 		//     before the first PreStart
 		for _, e := range mine {
@@ -696,19 +807,81 @@ func c06Judge(x *vfkit.X, c c06Case, evs []c06Ev) {
 			}
 		}
 		for k, p := range pre {
+			// hooks are ordered: the PreStart of a new incarnation never runs while a
+			// PostStop (or another PreStart) of the same actor is running
+			for _, q := range post {
+				if q.enter < p.exit && p.enter < q.exit {
+					fp := c06FpUnserial + "prestart-overlaps-poststop"
+					nontrivial = true
+					if !x.Known(fp) {
+						fail(fp, "PreStart #%d [%d,%d] on goroutine %d runs while PostStop (%s) [%d,%s] runs on goroutine %d", k+1, p.enter, p.exit, p.g, q.path, q.enter, c06TS(q.exit), q.g)
+					}
+					x.Class("known_" + fp)
+					knownFP = fp
+					tainted[k] = true
+					if k > 0 {
+						tainted[k-1] = true
+					}
+				}
+			}
+			if k > 0 && p.enter < pre[k-1].exit {
+				fp := c06FpUnserial + "prestart-overlaps-prestart"
+				nontrivial = true
+				if !x.Known(fp) {
+					fail(fp, "PreStart #%d [%d,%d] on goroutine %d runs while PreStart #%d [%d,%s] runs on goroutine %d", k+1, p.enter, p.exit, p.g, k, pre[k-1].enter, c06TS(pre[k-1].exit), pre[k-1].g)
+				}
+				x.Class("known_" + fp)
+				knownFP = fp
+				tainted[k], tainted[k-1] = true, true
+			}
+		}
+		for k, p := range pre {
 			which := "spawn"
 			if k > 0 {
 				which = "restart"
 			}
+			// the restart that ran this PreStart: where it re-armed the behaviour stack, and
+			// whether it stopped the actor itself first (PostStop via restartSubtree on the
+			// same goroutine) or found it not running and skipped the shutdown
+			rearmAt, clean := c06Open, false
+			if k > 0 {
+				for _, e := range mine {
+					if e.G == p.g && e.TS > pre[k-1].enter && e.TS < p.enter {
+						if e.K == c06KRearm {
+							rearmAt = e.TS
+						}
+						if e.K == c06KPostEnter && e.Path == "restart" {
+							clean = true
+						}
+					}
+				}
+			}
 			for _, r := range recv {
+				if tainted[k] {
+					// this PreStart overlapped a PostStop or another PreStart of the same actor
+					// (listed unserialised restart): a Receive overlapping it as well has the
+					// same cause and is not judged separately
+					break
+				}
 				if r.enter < p.exit && p.enter < r.exit {
 					if r.g == p.g {
 						fail("prestart-receive-interleaved-one-goroutine", "PreStart #%d [%d,%d] and Receive [%d,%d] interleave on goroutine %d", k+1, p.enter, p.exit, r.enter, r.exit, p.g)
 					}
 					fp := c06FpPreStart + which
-					if k > 0 && rearmedIn(pre[k-1].exit, r.enter) {
+					switch {
+					case k > 0 && r.enter > rearmAt:
 						// the Receive started after this restart had re-armed the behaviour stack
 						fp = c06FpRearm
+					case k > 0 && !clean && concurrentCalls(p):
+						// this Restart ran while another stop/restart call on the same actor was
+						// in progress: it found IsRunning()==false, skipped the shutdown and
+						// re-initialised the actor under the other call (listed: unserialised)
+						fp = c06FpUnserial + "prestart-overlaps-receive"
+					case k > 0 && !clean:
+						// the Receive was already running: Restart found the actor not running
+						// (stopped and still draining, or suspended), skipped the shutdown and
+						// re-initialised it without waiting for its turn
+						fp = c06FpSkipped + "prestart-overlaps-receive"
 					}
 					nontrivial = true
 					if !x.Known(fp) {
@@ -718,14 +891,14 @@ func c06Judge(x *vfkit.X, c c06Case, evs []c06Ev) {
 					knownFP = fp
 				}
 			}
-			for _, q := range post {
-				if q.enter < p.exit && p.enter < q.exit {
-					fail("prestart-overlaps-poststop", "PreStart #%d [%d,%d] overlaps PostStop [%d,%s]", k+1, p.enter, p.exit, q.enter, c06TS(q.exit))
-				}
-			}
 		}
 		// per incarnation k: events in [pre[k].enter, pre[k+1].enter)
 		for k, p := range pre {
+			if tainted[k] {
+				// a listed unserialised restart overlapped this incarnation's hooks: which
+				// incarnation a PostStop belongs to is ambiguous, nothing more is judged here
+				continue
+			}
 			end := c06Open
 			if k+1 < len(pre) {
 				end = pre[k+1].enter
@@ -741,8 +914,14 @@ func c06Judge(x *vfkit.X, c c06Case, evs []c06Ev) {
 			}
 			x.Class("path_" + ps[0].path)
 			// (b) PostStop at most once per incarnation
-			if len(ps) > 1 {
-				fail("poststop-runs-twice:"+ps[1].path, "incarnation %d: PostStop ran %d times (first via %s at %d, again via %s at %d)", k+1, len(ps), ps[0].path, ps[0].enter, ps[1].path, ps[1].enter)
+			for _, extra := range ps[1:] {
+				fp := "poststop-runs-twice:" + extra.path
+				nontrivial = true
+				if !x.Known(fp) {
+					fail(fp, "incarnation %d: PostStop ran %d times (first via %s at %d, again via %s at %d)", k+1, len(ps), ps[0].path, ps[0].enter, extra.path, extra.enter)
+				}
+				x.Class("known_" + fp)
+				knownFP = fp
 			}
 			P := ps[0]
 			if P.q > 0 {
@@ -783,6 +962,19 @@ func c06Judge(x *vfkit.X, c c06Case, evs []c06Ev) {
 					}
 					x.Class("known_" + c06FpRearm)
 					knownFP = c06FpRearm
+					continue
+				}
+				if c06OnTurnPath(P.path) && k > 0 && twoWorkers(p.enter, end) {
+					// this incarnation was started by Restart and two workers ran the actor at
+					// once (restartSubtree resets schedState to Idle under a worker that took the
+					// turn during re-initialisation): the overlapping Receive is the other
+					// worker's, not a failure of the on-turn stop
+					fp := "restart-two-workers-on-one-actor"
+					if !x.Known(fp) {
+						fail(fp, "incarnation %d (started by Restart): two dispatcher workers run the actor concurrently; PostStop(%s) [%d,%s] on goroutine %d overlaps Receive(msg %d) [%d,%s] on goroutine %d", k+1, P.path, P.enter, c06TS(P.exit), P.g, r.msg, r.enter, c06TS(r.exit), r.g)
+					}
+					x.Class("known_" + fp)
+					knownFP = fp
 					continue
 				}
 				if c06OnTurnPath(P.path) {
@@ -835,7 +1027,7 @@ func TestVF_C06_lifecycle(t *testing.T) {
 	c06Start(t)
 	vfkit.Run(t, vfkit.Spec[c06Case]{
 		ID: "C06", Unit: "lifecycle",
-		Rule: "cases = a family of 1..4 instrumented actors (roots/children, long-lived or time/message-count passivation, stop-on-error supervisor) on one of three real actor systems (throughput budget 1/4/32), 1..3 concurrent senders with handler think times 0..3ms, 1..3 stop actions (PoisonPill, ctx.Shutdown, ctx.Stop(child), panic->stop directive, Shutdown of another actor from a handler, Kill, PID.Shutdown, parent.Stop, Restart) fired when the target has entered a generated number of handlers, plus a schedule-noise profile; non-trivial = some stop was issued, or some PostStop started, while the target had a queued message or a handler in flight; distinct = distinct cases",
+		Rule: "cases = a family of 1..4 instrumented actors (roots/children, long-lived or time/message-count passivation, stop-on-error supervisor) on one of three real actor systems (throughput budget 1/4/32), 1..3 concurrent senders with handler think times 0..3ms (rarely 15ms), 1..3 stop actions (PoisonPill, ctx.Shutdown, ctx.Stop(child), panic->stop directive, Shutdown of another actor from a handler, Kill, PID.Shutdown, parent.Stop, Restart) fired when the target has entered a generated number of handlers, plus a schedule-noise profile; non-trivial = some stop was issued, or some PostStop started, while the target had a queued message or a handler in flight; distinct = distinct cases",
 		Gen:  c06Gen, Exec: c06Exec,
 		ReplayReps: 30,
 	})
